@@ -59,3 +59,20 @@ def outer():
         return a
 
     return inner
+
+
+import functools
+
+# names that used to be plain functions and are by now wrappers around a function defined in a local scope
+now_cached_local = functools.lru_cache(maxsize=None)(outer())
+
+
+def _keep(f):
+    @functools.wraps(f)
+    def wrapper(*a, **kw):
+        return f(*a, **kw)
+
+    return wrapper
+
+
+now_wrapped_local = _keep(outer())
